@@ -142,3 +142,18 @@ func init() {
 		return []Val{{T: r}}
 	}
 }
+
+func init() {
+	// slices.Index(s, v): -1, or the position of an element equal to v
+	externals["slices.Index"] = func(f *Frame, ns *nodeState, x *ssa.Call, fn *ssa.Function, args []Val) []Val {
+		ex, vc := f.ex, f.ex.vc
+		s := ex.viewOf(ns.st, args[0])
+		r := vc.Declare(f.prefix+"index", SInt)
+		v := args[1].T
+		vc.Assume(Implies(ns.reach, And(leT(IntLit64(-1, SInt), r), ltT(r, slLen(s)))), "slices.Index: -1 or a position inside the slice")
+		if v.S != "" && v.Sort != nil && s.Sort.Elem != nil && sameSort(v.Sort, s.Sort.Elem) {
+			vc.Assume(Implies(And(ns.reach, leT(IntLit64(0, SInt), r)), Eq(Select(slArr(s), r), v)), "slices.Index: the element at the returned position equals the value")
+		}
+		return []Val{{T: r}}
+	}
+}
